@@ -342,12 +342,46 @@ def rule_matrix_conversion(ctx, m):
               'the square form is an inf-filled n x n matrix with M[idxs] = dists and, unless only_triu, M.T[idxs] = dists and a zero diagonal '
               '(alloc=%s idxs=%s upper=%s mirror=%s)' % (alloc, idxs, up, mir), f.line)
     pm, g = _func(m, 'dtaidistance.dtw', 'distance_array_index')
+    # symbolic: after the (a, b) swap the loop adds n - r - 1 for r in [0, min(a, b)) and the result adds max(a, b) - min(a, b) - 1
+    from ..symexec import Exec, Env, subst_expr, assigned_vars
+    from .iterspace import _run_until, _accumulator
+    from .. import sym as _sym
     loop = [s for s in g.body if s.k == 'for']
-    ok = len(loop) == 1 and loop[0].lo == ('num', 0) and loop[0].hi == ('var', 'a') and len(loop[0].body) == 1 and \
-        fmt(loop[0].body[0].value) == '(idx + ((nb_series - %s) - 1))' % loop[0].var
-    last = [s for s in g.body if s.k == 'assign' and s.target == ('var', 'idx')]
-    ok = ok and fmt(last[-1].value) == '(idx + ((b - a) - 1))'
-    swap = any(s.k == 'if' and fmt(s.cond) == '(a > b)' and fmt(s.then[0].value) == '(b, a)' for s in g.body)
+    ok = swap = False
+    if len(loop) == 1:
+        lp = loop[0]
+        pa, pb, pn = g.args[0], g.args[1], g.args[2]
+        atom = lambda e: {pa: 'A', pb: 'B', pn: 'N'}.get(e[1], e[1]) if e[0] == 'var' else None
+        T = lambda e: _sym.from_ir(norm_minmax(e), atom=atom)
+        A, B, N = _sym.var('A'), _sym.var('B'), _sym.var('N')
+        ex = Exec()
+        env = Env()
+        _run_until(ex, g.body, env, lp)
+        benv = env.copy()
+        for v_ in assigned_vars(lp.body):
+            benv[v_] = ('var', v_ + '@in')
+        benv[lp.var] = ('var', 'r')
+        out = Exec().run(lp.body, benv)
+        acc = _accumulator(out, assigned_vars(lp.body))
+        dom = [A, B, _sym.sub(_sym.sub(N, A), _sym.const(1)), _sym.sub(_sym.sub(N, B), _sym.const(1))]
+        box = {'A': range(0, 6), 'B': range(0, 6), 'N': range(1, 7), 'r': range(0, 6)}
+        eq = lambda x, y: _sym.equivalent(x, y, dom, box=box)[0] == 'equal'
+        try:
+            lo_t, hi_t = T(subst_expr(lp.lo, env)), T(subst_expr(lp.hi, env))
+            swap = eq(hi_t, _sym.tmin(A, B)) and eq(lo_t, _sym.const(0))
+            if acc is not None:
+                inc = _sym.sub(T(out[acc]), _sym.var(acc + '@in'))
+                ok = eq(inc, _sym.sub(_sym.sub(N, _sym.var('r')), _sym.const(1))) and env.get(acc) == ('num', 0)
+                # the value returned after the loop
+                eenv = env.copy()
+                eenv[acc] = ('var', acc + '@loop')
+                eex = Exec()
+                eex.run(g.body[g.body.index(lp) + 1:], eenv)
+                rets = [v for p_, v, st_ in eex.returns if v is not None]
+                want_tail = _sym.sub(_sym.sub(_sym.tmax(A, B), _sym.tmin(A, B)), _sym.const(1))
+                ok = ok and len(rets) == 1 and eq(_sym.sub(T(rets[0]), _sym.var(acc + '@loop')), want_tail)
+        except _sym.Unsupported:
+            ok = False
     ctx.check(ok and swap, 'R-ITER', pm.path, 'distance_array_index', 'condensed index', 'the condensed index of (a, b), a < b, is sum_{r<a}(n - r - 1) + (b - a - 1)', g.line)
 
 
